@@ -340,6 +340,14 @@ impl C19 {
     out.sample("sign", edge, || json!({"month": m, "day": d, "sign": g}));
     let mut c = Ck { env, out, case };
     c.eq("sign", "zodiac_sign", format!("{:02}-{:02}", m, d), exp.into(), g);
+    // the sign depends on month and day only: the same in common years, in the reform year 1582 (whose day-of-year
+    // numbering has a gap) and at both ends of the range
+    for yy in [2023i64, 1582, 1, 4, 1500, 1600, 1900, 9999] {
+      if crate::model::date_exists(yy, m, d) {
+        let gy = SolarDay::from_ymd(yy as isize, m as usize, d as usize).get_constellation().get_name();
+        c.eq("sign", "zodiac_sign_in_other_years", format!("{}-{:02}-{:02}", yy, m, d), exp.into(), gy);
+      }
+    }
   }
 
   /// a = [year stem, month pillar, day pillar, hour pillar]: derived pillars of the eight characters
